@@ -183,6 +183,9 @@ func WaitQuiescent()                 { time.Sleep(20 * time.Millisecond) }
 func MustFinish()                    {}
 func MayBlock()                      {}
 func ThreadsAlive() int              { return 0 }
+
+// ThreadsAliveIs: in the engine, exactly n other threads are not finished; natively unknown (true).
+func ThreadsAliveIs(n int) bool { return true }
 func Ghost(f func())                 { f() }
 func Nop(ptrToInterface interface{}) {}
 
